@@ -76,10 +76,11 @@ def to_ledger_blk(obs):
 class NodeRec:
     """Adapter so that checks.ledger.RandomTree drives a node instead of a bare CoinState."""
 
-    def __init__(self, run, rng, ibd_p=0.0):
+    def __init__(self, run, rng, ibd_p=0.0, fetch_p=0.0):
         self.run = run
         self.rng = rng
         self.ibd_p = ibd_p          # probability that a block arrives as the answer to a request (bulk download: in_response_to != 0)
+        self.fetch_p = fetch_p      # probability that the node has just asked its peers for blocks (GetBlocks outstanding) when a block is pushed
         self.force_irt = None
 
     @property
@@ -94,6 +95,17 @@ class NodeRec:
         run.clock.t = now
         before = set(run.node.chain().block_by_hash.keys())
         irt = self.force_irt if self.force_irt is not None else (77 if self.rng.random() < self.ibd_p else 0)
+        if self.fetch_p and self.rng.random() < self.fetch_p:
+            # the chain manager's periodic resync: GetBlocks to some peer, whose answer is still outstanding when the next block is pushed
+            cm = run.node.local.chain_manager
+            for _ in range(3):
+                try:
+                    cm.step((int(now) // 60 + 1) * 60)
+                except Exception as e:
+                    run.node.escaped.append(("chain_manager.step", repr(e)))
+            run.node.pump_writes()
+            for p_ in openp:
+                run.node.take_sent(p_)
         run.deliver_block(self.rng.choice(openp), block, irt=irt, label=label)
         after = run.node.chain().block_by_hash
         if getattr(self, "assume_valid", False) and block.hash() not in before and isinstance(label, dict) and label.get("mut", "x") == "":
